@@ -8,7 +8,7 @@ EXPLANATION = ('Value-flow normal forms of NUTSChain::step (doubling loop summar
                'of the U-turn criterion, compared line by line with Algorithm 6 of Hoffman & Gelman (2014) plus the property\'s divergence bound 1000 and the '
                'acceptance statistic (sum of min(1, exp(joint - joint0)) and count over the last doubling). Polymorphic bodies: all T, B, targets, step sizes, depths. '
                'Uniformity of the selected state (a probabilistic consequence of the weights) and numerical trajectories are not decided.')
-FLOORS = {'obligations': 34}   # counted on the reference tree; fewer instantiated obligations is reported, never passed silently
+FLOORS = {'obligations': 35}   # counted on the reference tree; fewer instantiated obligations is reported, never passed silently
 TECHNIQUE = 'value-flow normal form + loop summary + recursion summary (symbolic result tuples) vs specification table'
 ULG = 'distributions::GradientTarget::unnorm_logp_and_grad'
 HALF = T.div(T.ONE, N(2))
@@ -61,6 +61,10 @@ def run(ctx):
         return
     bt = rec[0]
     btkey = strip_generics(bt['path'])
+    ns = narrowing_sites(ctx, [bstep, bt] + [c for c in ctx.local_callees(bt) if c is not bt])
+    ctx.check('C03.no_narrowing', 'NUTSChain::step', 'precision', not ns, expected='no conversion to a fixed narrower float type on the trajectory path',
+              found='; '.join('%s: %s at %s' % x for x in ns) or 'none', sp=bstep['sp'],
+              why='the trajectory must be the leapfrog trajectory of the current step size in the precision of the back end')
     tree(ctx, bt, btkey)
     top(ctx, bstep, bt, btkey)
 
